@@ -1,30 +1,44 @@
 #!/bin/bash
-# usage: tools/seedtest.sh <seed-id> <property> <dir-with-SEED-files> <package-dir-of-demo>
+# usage: tools/seedtest.sh <seed-id> <property> <dir-with-SEED-files> <package-dir-of-demo> "<what it needs to manifest>"
 # 1. confirm the seeded change in a fresh scratch worktree (applies, builds, baseline tests pass,
 #    demo fails with it and passes without it); 2. store it under seeded/<id>; 3. run the property's
 #    quick check against it in /repo and undo.
 set -u
-ID=$1; PROP=$2; SRC=$3; PKG=$4
+ID=$1; PROP=$2; SRC=$3; PKG=$4; NEEDS=${5:-}
 V=/tmp/wt/verify_$ID
 export GOFLAGS=-mod=mod GOPROXY=off
 rm -rf $V; git -C /repo worktree remove --force $V 2>/dev/null
 git -C /repo worktree add --detach $V HEAD >/dev/null 2>&1 || exit 2
 cp -r /tmp/pbgen_out/* $V/
 cd $V
-git apply $SRC/patch.diff || { echo "PATCH DOES NOT APPLY"; exit 2; }
+git apply $SRC/patch.diff 2>/dev/null || git apply -3 $SRC/patch.diff || { echo "PATCH DOES NOT APPLY"; exit 2; }
+git reset -q; git diff > /tmp/wt/rebased_$ID.diff   # the change re-based on the current HEAD of /repo
 go build ./... || { echo "BUILD FAILS"; exit 2; }
 BASE=$(go test -count=1 ./batching/... ./dkv/... ./storage/locations/... ./storage/objstore/... ./util/... 2>&1 | grep -c "^FAIL\|^---")
 echo "baseline failures with change: $BASE"
 cp $SRC/zz_demo_test.go $V/$PKG/zz_demo_test.go
 go test -count=1 -run 'Demo' ./$PKG/ > /tmp/wt/demo_with_$ID.log 2>&1; W=$?
-git apply -R $SRC/patch.diff
+git apply -R /tmp/wt/rebased_$ID.diff
 go test -count=1 -run 'Demo' ./$PKG/ > /tmp/wt/demo_without_$ID.log 2>&1; WO=$?
 echo "demo exit with change: $W (want != 0), without: $WO (want 0)"
 cd /verif
 git -C /repo worktree remove --force $V
-mkdir -p seeded/$ID && cp $SRC/patch.diff seeded/$ID/patch.diff && cp $SRC/zz_demo_test.go seeded/$ID/ && cp $SRC/NOTES.md seeded/$ID/NOTES.md 2>/dev/null
+mkdir -p seeded/$ID && cp /tmp/wt/rebased_$ID.diff seeded/$ID/patch.diff && cp $SRC/zz_demo_test.go seeded/$ID/ && cp $SRC/NOTES.md seeded/$ID/NOTES.md 2>/dev/null
 git -C /repo apply /verif/seeded/$ID/patch.diff || { echo "DOES NOT APPLY TO /repo"; exit 2; }
 sh tools/check.sh $PROP quick > /tmp/wt/check_$ID.log 2>&1; C=$?
 git -C /repo checkout -- .
 echo "check exit: $C"; grep "VIOLATION\|harness=.*native\|INCONCLUSIVE" /tmp/wt/check_$ID.log | head -8
 echo "RESULT id=$ID baseline_fail=$BASE demo_with=$W demo_without=$WO check_exit=$C"
+DET=$(grep -o "harness=[A-Za-z0-9_]* obligation=[a-z0-9-]*" /tmp/wt/check_$ID.log | sort -u | tr '\n' ';')
+python3 - "$ID" "$PROP" "$PKG" "$NEEDS" "$BASE" "$W" "$WO" "$C" "$DET" <<'PY'
+import json,sys,os
+id,prop,pkg,needs,base,w,wo,c,det=sys.argv[1:]
+p='/verif/seeded/%s/meta.json'%id
+m=json.load(open(p)) if os.path.exists(p) else {}
+m.update({"id":id,"property":prop,"origin":"fresh sub-agent given only the property text and a scratch worktree","demo_package":pkg,
+ "needs_to_manifest":needs or m.get("needs_to_manifest",""),
+ "confirmed_in_scratch_worktree":{"applies_and_builds":True,"existing_tests_failing_with_change":int(base),"demo_exit_with_change":int(w),"demo_exit_without_change":int(wo),
+   "commands":["git apply patch.diff; go build ./...","go test -count=1 ./batching/... ./dkv/... ./storage/locations/... ./storage/objstore/... ./util/...","go test -count=1 -run Demo ./%s/ (with and without the change)"%pkg]}})
+m.setdefault("checks",{})[prop]={"command":"sh tools/check.sh %s quick (patch applied to /repo, then git checkout -- .)"%prop,"exit":int(c),"detected":int(c)==1,"natively_reproduced_obligations":[d for d in det.split(';') if d]}
+json.dump(m,open(p,'w'),indent=1)
+PY
